@@ -239,6 +239,39 @@ def _fuzz(prop, seed, HERE, HARNESS, ENV):
     return out
 
 
+def replay_shard(wit, HERE, HARNESS, ENV):
+    """Re-run one Miri / ASan shard named by a witness {"kind": "miri-shard"|"asan-shard", property, seed, shard}.
+    Returns (outcome, text): outcome in {"violation", "clean", "inconclusive"}."""
+    prop, seed, shard = wit["property"], int(wit["seed"]), wit["shard"]
+    if wit["kind"] == "miri-shard":
+        env = dict(ENV)
+        env["MIRIFLAGS"] = "-Zmiri-disable-isolation"
+        cmd = ["cargo", "+nightly", "miri", "run", "--offline", "--", "run", prop, "--tier", "thorough", "--seed", str(seed), "--shard", shard]
+        p = subprocess.run(cmd, cwd=HARNESS, env=env, stdout=subprocess.PIPE, stderr=subprocess.PIPE, text=True)
+        se = p.stderr
+        if "Undefined Behavior" in se or "Data race detected" in se:
+            return "violation", "\n".join(l for l in se.splitlines() if l.startswith("error"))[:800]
+        if "error: unsupported operation" in se or (p.returncode not in (0, 1, 2)):
+            return "inconclusive", se[-400:]
+        return "clean", ""
+    env = dict(ENV)
+    env["RUSTFLAGS"] = "-Zsanitizer=address -Cforce-frame-pointers=yes --cfg stunmon_asan"
+    env["CARGO_TARGET_DIR"] = os.path.join(HARNESS, "target", "asan")
+    b = subprocess.run(["cargo", "+nightly", "build", "--release", "--offline", "--target", ASAN_TARGET], cwd=HARNESS, env=env,
+                       stdout=subprocess.PIPE, stderr=subprocess.STDOUT, text=True)
+    if b.returncode != 0:
+        return "inconclusive", "asan build failed"
+    renv = dict(ENV)
+    renv["ASAN_OPTIONS"] = "halt_on_error=1:abort_on_error=0:exitcode=66:detect_leaks=0:detect_stack_use_after_return=1:symbolize=1"
+    renv["VERIF_BUDGET"] = os.environ.get("VERIF_ASAN_BUDGET", "0.5")
+    binp = os.path.join(HARNESS, "target", "asan", ASAN_TARGET, "release", "stunmon")
+    p = subprocess.run([binp, "run", prop, "--tier", "quick", "--seed", str(seed), "--shard", shard], cwd=HERE, env=renv,
+                       stdout=subprocess.PIPE, stderr=subprocess.PIPE, text=True)
+    if "ERROR: AddressSanitizer" in p.stderr:
+        return "violation", p.stderr[p.stderr.index("ERROR: AddressSanitizer"):][:800]
+    return "clean", ""
+
+
 def run_layer(name, prop, seed, HERE, HARNESS, ENV):
     if name == "miri":
         return _miri(prop, seed, HERE, HARNESS, ENV)
